@@ -46,6 +46,13 @@ TRUSTED["C12"] = [
     "R^T below/left of the split between the past-reference rows and the future rows, past stacked first - the contract pins exactly that",
 ]
 
+TRUSTED["C02"] = [
+    "lazy-sum calculus: sums as uninterpreted functions of their summand template, congruence lemma, factoring of common "
+    "summation-independent multipliers; exact identity (k1 Z)/(k2 Z) = k1/k2 for a non-zero complex sum Z",
+    "numpy.delete(a, idx) as the strictly increasing enumeration of the complement of idx (list lemma A7)",
+    "np.mean / np.std (population formula) by their definitions over a concrete number of setups",
+]
+
 ASSUMPTIONS = {
     "C09": [
         "a mode-shape vector in a pole table is either entirely non-finite or entirely finite",
@@ -57,7 +64,12 @@ ASSUMPTIONS["C10"] = ["scope of the order window clause: step == 1 (columns are 
 
 ASSUMPTIONS["C12"] = ["N = Ndat - 2*br - 1 >= 2; for 'dat' additionally N - 1 >= (r + l)(br + 1) (thin QR factor square)"]
 
+ASSUMPTIONS["C02"] = ["the number of setups is enumerated (2 and 3); sensors per setup, reference count/positions/order, "
+                      "number of modes, factors and shapes are symbolic",
+                      "reference part of each mode has a non-vanishing non-conjugated self product (always true for real shapes)"]
+
 NOT_DECIDED = {
+    "C02": ["the end-to-end SSI clause (shapes coming from SSI runs) is left to C01/C03"],
     "C12": ["the Gram/projection identity itself for the data-driven matrix is a trusted linear-algebra lemma; the proof pins the "
             "stacking order, scaling, windows and split point it depends on"],
     "C10": ["MAC value itself (C18)", "label purity is a consequence of the functional contract (result == spec(arguments)); "
